@@ -66,9 +66,12 @@ def corpus_jobs(prop, path, exes):
 
 INT_BTS = ["u8", "u16", "u32", "u64"]
 INT_LARGE = [12, 15, 16, 17, 24, 31, 32, 33, 40, 63, 64, 65, 127, 128, 129]
+# three and more full limbs of every type incl. uint64_t, and a partially filled fourth one (seeded change C12-3: a carry lost
+# across an all-ones 64-bit limb shows only from the third limb on; 129 bits leave a single bit there)
+INT_WIDE = [192, 200]
 
 
-def integer_streams(quick_pairs, thorough_pairs):
+def integer_streams(quick_pairs, thorough_pairs, wide=False):
     def f(tier, seed, exes):
         jobs = []
         quick = tier == "quick"
@@ -82,9 +85,11 @@ def integer_streams(quick_pairs, thorough_pairs):
         cnt = quick_pairs if quick else thorough_pairs
         shards = 1 if quick else 4
         for bt in INT_BTS:
-            for n in INT_LARGE:
+            for n in INT_LARGE + (INT_WIDE if wide else []):
                 # multi-block uint64_t: every operator except *= (known finding integer.u64.multiblock_mul: undefined behaviour, not called)
                 ops = "nomul" if bt == "u64" and n > 64 else "all"
+                if n in INT_WIDE:
+                    ops = "nomulconv"  # + - / % shifts logic compare; conversion targets of 2n+3 bits exceed the transcript width
                 for sh in range(shards):
                     jobs.append(dict(exe=exes["h_integer_" + bt], args=["rnd", str(n), bt, str(cnt // shards), ops],
                                      env={"VERIF_SEED": str(seed * 100 + sh)}, label=f"integer<{n},{bt}> structured shard {sh}"))
@@ -213,7 +218,7 @@ PROPS = {
     ),
     "C08": dict(
         harness=["h_integer_u8", "h_integer_u16", "h_integer_u32", "h_integer_u64"],
-        streams=integer_streams(4000, 100000),
+        streams=integer_streams(4000, 100000, wide=True),
         level="proof",
         level_text="Lean theorems (for every nbits and limb width) about the limb-level model of integer<nbits,bt> "
                    "(+= carry chain with MSU mask incl. the wrap-around carry of uint64_t blocks, -=, schoolbook *=, idiv long division and the native fast path, <<= >>= block+bit "
